@@ -95,6 +95,35 @@ func resolveRR(p *Prog, r *Report, rule string) *rrInfo {
 			}
 		}
 	}
+	if ri.cwF == "" {
+		// the level may be maintained by a helper: it then is the int field the selection routine compares a
+		// server's weight with
+		for _, b := range ri.selection.Blocks {
+			for _, in := range b.Instrs {
+				bo, ok := in.(*ssa.BinOp)
+				if !ok {
+					continue
+				}
+				switch bo.Op {
+				case token.LSS, token.LEQ, token.GTR, token.GEQ:
+				default:
+					continue
+				}
+				for _, pr := range [][2]ssa.Value{{bo.X, bo.Y}, {bo.Y, bo.X}} {
+					wu, ok1 := pr[0].(*ssa.UnOp)
+					lu, ok2 := pr[1].(*ssa.UnOp)
+					if !ok1 || !ok2 {
+						continue
+					}
+					wn, wf, _, okw := fieldOf(wu.X)
+					ln, lf, _, okl := fieldOf(lu.X)
+					if okw && okl && wn != nil && ln != nil && wn.Obj() == ri.srvTyp.Obj() && wf == ri.weightF && ln.Obj() == ri.typ.Obj() && lf != ri.idxF {
+						ri.cwF = lf
+					}
+				}
+			}
+		}
+	}
 	if ri.idxF == "" || ri.cwF == "" {
 		r.Anchor(rule, "roundrobin.RoundRobin: iterator fields (index, current level)", fmt.Sprintf("index=%q level=%q", ri.idxF, ri.cwF))
 		return nil
